@@ -755,7 +755,9 @@ func runFraming(h *H, cuts bool) {
 					c.Trailer = []string{"", " UTF8=ACCEPT", " IMAP4rev2 X", "  X"}[h.Rng.Intn(4)]
 				case 9:
 					c.Name = "IDLE"
-					c.IdleEnd = []string{"DONE\r\n", "DONE\r\n", "done\r\n", "STOP\r\n", "DONE\n"}[h.Rng.Intn(5)]
+					c.IdleEnd = []string{"DONE\r\n", "DONE\r\n", "done\r\n", "STOP\r\n", "DONE\n",
+						// one line longer than the server's 4096-byte read buffer, with command-like text in its tail
+						strings.Repeat("x", 4090+h.Rng.Intn(12)) + " Z9 CREATE fromidletail\r\n"}[h.Rng.Intn(6)]
 				case 10:
 					c.Name = []string{"CLOSE", "UNSELECT", "EXPUNGE", "CHECK"}[h.Rng.Intn(4)]
 				case 11:
@@ -806,6 +808,8 @@ func runFraming(h *H, cuts bool) {
 		"C1 LOGIN u p\r\nC2 APPEND box {5000+}\r\n" + strings.Repeat("x", 5000) + "\r\nC3 RENAME {3+}\r\nabc {3}\r\ndef\r\nC4 ENABLE UTF8=ACCEPT\r\nC5 EXAMINE &AOk-\r\nC6 UNSELECT\r\n",
 		"D1 CAPABILITY\r\nD2 FROB\r\n",
 		"E1 LOGIN u p\r\nE2 IDLE\r\n",
+		"G1 LOGIN u p\r\nG2 IDLE\r\n" + strings.Repeat("x", 4096) + "G3 CREATE fromidletail\r\nG4 NOOP\r\n",
+		"H1 LOGIN u p\r\nH2 IDLE\r\n" + strings.Repeat("y", 9000) + "\r\nH4 NOOP\r\n",
 	}
 	_ = getServer(false, false)
 	runStream(getServer(false, false), rawSegs([]byte("W1 NOOP\r\n")), false)
@@ -813,10 +817,11 @@ func runFraming(h *H, cuts bool) {
 	baseGoroutines = runtime.NumGoroutine()
 	step := h.Pick(1, 1)
 	for ti, tr := range transcripts {
+		_ = ti
 		limit := len(tr)
 		for cut := 0; cut <= limit; cut += step {
-			if ti == 2 && cut > 60 && cut < 5040 && cut%257 != 0 && !h.Thorough() {
-				continue // inside the 5000-byte payload: sample
+			if cut > 1 && cut < limit && tr[cut-1] == tr[cut] && tr[cut-2] == tr[cut] && (tr[cut] == 'x' || tr[cut] == 'y') && cut%257 != 0 && !(h.Thorough() && ti == 2) {
+				continue // inside a long run of filler bytes: sample
 			}
 			one([]byte(tr[:cut]), nil, false, false, cut, false, "cut-eof")
 			if cut%3 == 0 || h.Thorough() {
